@@ -427,11 +427,99 @@ type c18ERoot struct {
 	Other string
 }
 
+type c18LRoot struct {
+	X string
+	N int
+	C *c18LRoot
+}
+
+// Delete of a leaf: afterwards the leaf shows no value (absent, or the zero value of a struct field) and nothing
+// else changed, on every backend
+func c18leafDelete(c *core.Ctx) {
+	y := `module ld { namespace "urn:ld"; prefix ld; revision 2020-01-01;
+  grouping g { leaf x { type string; } leaf n { type int32; } } uses g; container c { uses g; } }`
+	m, err := parser.LoadModuleFromString(nil, y)
+	if err != nil {
+		c.Violation(core.Replay{Kind: "harness", Summary: "c18leafDelete module: " + err.Error(), NoInputFound: true})
+		return
+	}
+	before := `{"x":"X","n":5,"c":{"x":"Y","n":6}}`
+	for _, be := range []string{"node-map", "reflect-map", "node-struct", "reflect-struct"} {
+		for _, del := range []string{"x", "n", "c/x", "c/n"} {
+			var got string
+			var problems []string
+			e := safeDo(func() error {
+				var root node.Node
+				switch be {
+				case "node-map":
+					root = &nodeutil.Node{Object: map[string]interface{}{}}
+				case "reflect-map":
+					root = nodeutil.ReflectChild(map[string]interface{}{})
+				case "node-struct":
+					root = &nodeutil.Node{Object: &c18LRoot{}}
+				case "reflect-struct":
+					root = nodeutil.ReflectChild(&c18LRoot{})
+				}
+				b := node.NewBrowser(m, root)
+				src, _ := nodeutil.ReadJSON(before)
+				if err := b.Root().UpsertFrom(src); err != nil {
+					return fmt.Errorf("load: %v", err)
+				}
+				sel, err := b.Root().Find(del)
+				if err != nil || sel == nil {
+					return fmt.Errorf("find %s: %v", del, err)
+				}
+				if err := sel.Delete(); err != nil {
+					return fmt.Errorf("delete: %v", err)
+				}
+				if got, err = nodeutil.WriteJSON(b.Root()); err != nil {
+					return err
+				}
+				var was, is map[string]interface{}
+				json.Unmarshal([]byte(before), &was)
+				json.Unmarshal([]byte(got), &is)
+				var cmp func(path string, w, i map[string]interface{})
+				cmp = func(path string, w, i map[string]interface{}) {
+					for k, wv := range w {
+						p := strings.TrimPrefix(path+"/"+k, "/")
+						iv, has := i[k]
+						if p == del {
+							if has && fmt.Sprint(iv) != "" && fmt.Sprint(iv) != "0" {
+								problems = append(problems, fmt.Sprintf("%s still shows %v", p, iv))
+							}
+							continue
+						}
+						if wm, isMap := wv.(map[string]interface{}); isMap {
+							im, _ := iv.(map[string]interface{})
+							cmp(p, wm, im)
+						} else if !has || fmt.Sprint(iv) != fmt.Sprint(wv) {
+							problems = append(problems, fmt.Sprintf("%s was %v and is %v", p, wv, iv))
+						}
+					}
+				}
+				cmp("", was, is)
+				return nil
+			})
+			if e != nil {
+				problems = append(problems, e.Error())
+			}
+			c.Evaluations++
+			c.Count("leaf_delete", be)
+			c.Distinct("leafdel " + be + del)
+			if len(problems) > 0 {
+				c.Violation(core.Replay{Kind: "property-failure", Class: "leaf-delete-" + be, Summary: fmt.Sprintf("%s: Delete of the leaf %s: %s; content %s", be, del, strings.Join(problems, "; "), short(got)),
+					Input: map[string]interface{}{"yang": y, "backend": be, "before": before, "delete": del}, Impl: got, Spec: "the leaf shows no value, nothing else changed"})
+			}
+		}
+	}
+}
+
 func C18(c *core.Ctx) {
 	c18accessors(c)
+	c18leafDelete(c)
 	c18keyRewrite(c)
 	c18emptied(c)
-	c.Rule = "operation sequences of length 1–12 (upsert / insert / update documents, delete of a container, of a list entry (present or absent key), of a whole list, replace of a container or list) at a random location (root, container, list entry) of generated trees, on the reference store and on reflection over maps; after every operation the status, the complete store content re-read independently of the library, Find of the deleted key and of every remaining entry are compared with the Lean model; directed: edits addressed at a list entry (upsert, update, replace, insert) whose document names the same, another existing or a new key or none, on map-, slice- and struct-backed nodes: keys stay unique, every entry is found under the key it shows, and the verdict and resulting entry are those of Model/EntryKey.editEntry; lists emptied by deletes (entry by entry, as a whole) on the same four backends are gone for a read and can be inserted again. non-trivial = sequence with ≥1 delete/replace that hits existing data; distinct by (schema, initial tree, sequence, target)"
+	c.Rule = "operation sequences of length 1–12 (upsert / insert / update documents, delete of a container, of a list entry (present or absent key), of a whole list, replace of a container or list) at a random location (root, container, list entry) of generated trees, on the reference store and on reflection over maps; after every operation the status, the complete store content re-read independently of the library, Find of the deleted key and of every remaining entry are compared with the Lean model; directed: edits addressed at a list entry (upsert, update, replace, insert) whose document names the same, another existing or a new key or none, on map-, slice- and struct-backed nodes: keys stay unique, every entry is found under the key it shows, and the verdict and resulting entry are those of Model/EntryKey.editEntry; lists emptied by deletes (entry by entry, as a whole) on the same four backends are gone for a read and can be inserted again; Delete of a leaf (top level, in a container) on the four backends clears that leaf only. non-trivial = sequence with ≥1 delete/replace that hits existing data; distinct by (schema, initial tree, sequence, target)"
 	c.Assumptions = append(c.Assumptions,
 		"replace of a single list entry (ReplaceFrom on an entry) is exercised only through delete + upsert sequences, the model has no separate operation for it",
 		"map-backed targets are compared with list entry order ignored")
